@@ -24,13 +24,17 @@
    deletions delivered in order as ordinary delete notifications; node work items may be arbitrarily stale -- no two
    existing nodes ever overlap, nor does an existing node overlap one that is deleted but whose deletion the
    controller has not processed yet (its blocks stay reserved until then, and are handed out again only after).
+   And ACROSS RESTARTS (Hist3_proofs.v, invariant HInv, last theorem): any number of incarnations -- crash at any
+   point, construction from the API objects, informers started later, nodes created and deleted while the
+   controller is down -- no two holders ever overlap: a holder is protected by its reservation (written by this
+   incarnation) or by the node cache (listed at start-up), and every copy of a node shows what the node holds.
    Residue (not a theorem; monitored on the implementation's traces): tombstones and relists, nodes marked
-   deleting, pre-set pod CIDRs, restarts: the world-level glue that a node's
+   deleting, pre-set pod CIDRs: the world-level glue that a node's
    reservation is released only through a deletion notification (or deleting sync) of that very node
    name, and that the CIDRs carried by such notifications are the node's own (assumption E7 about pod
    CIDRs pre-set by the environment; known findings K-TOMB, K-REPL are exactly failures of that glue
    in the other direction: a release that never comes). *)
-From NIPAM Require Import Sys Alloc_proofs Sys_proofs Inv_proofs World_proofs Resv_proofs Hist_proofs Hist2_proofs.
+From NIPAM Require Import Sys Alloc_proofs Sys_proofs Inv_proofs World_proofs Resv_proofs Hist_proofs Hist2_proofs Hist3_proofs.
 Open Scope N_scope.
 
 (* single step, any world *)
@@ -137,4 +141,29 @@ Example C01_deletion_history_nonvacuous :
 Proof.
   cbv zeta. split; [repeat constructor; cbn; try discriminate; unfold good_obj, good_field, good_range, wf_cidr; cbn; repeat split; try lia; try discriminate; intros [? _]; discriminate|].
   split; [repeat constructor|]. split; [cbn; constructor; [cbn; intros [E|[]]; discriminate E|constructor; [intros []|constructor]]|]. vm_compute. reflexivity.
+Qed.
+
+(* the property over whole histories with any number of restarts (and node deletion, stale work items, faults) *)
+Theorem C01_no_two_holders_overlap_in_any_history_across_restarts :
+  forall po lab ops,
+  Forall tame3_op ops -> NoDup (flat_map created ops) ->
+  let w := run po lab init_world ops in
+  forall n1 c1 n2 c2, holder w n1 c1 -> holder w n2 c2 -> n1 <> n2 -> overlapb c1 c2 = false.
+Proof. exact no_overlap_across_restarts. Qed.
+Print Assumptions C01_no_two_holders_overlap_in_any_history_across_restarts.
+
+(* non-vacuity: n1 is served by the first incarnation; the controller crashes; n2 is created while it is down;
+   the second incarnation serves n2 next to n1 *)
+Example C01_restart_history_nonvacuous :
+  let po0 : parse_oracle := fun _ => Some [] in
+  let lab0 : label_oracle := fun k => [cl k] in
+  let ops := [UCreateCC (mkCCObj [99] (FOk (mkCidr V4 167772160 26)) FEmpty 4 (Some [107]) [] false 1 0 0); UCreateNode [110;49] [] [];
+              Construct None None []; StartInformers; ProcCC UOk; ProcNode [POk]; Crash; UCreateNode [110;50] [] [];
+              Construct None None []; StartInformers; ProcCC UOk; ProcNode [POk]; ProcNode [POk]] in
+  Forall tame3_op ops /\ NoDup (flat_map created ops) /\
+  map (fun a => (an_name a, an_cidrs a)) (w_nodes (run po0 lab0 init_world ops))
+  = [([110;49], [PGood (mkCidr V4 167772160 28) true]); ([110;50], [PGood (mkCidr V4 167772176 28) true])].
+Proof.
+  cbv zeta. split; [repeat constructor; cbn; try discriminate; try (intros ? E; discriminate E); unfold good_obj, good_field, good_range, wf_cidr; cbn; repeat split; try lia; try discriminate; intros [? _]; discriminate|].
+  split; [cbn; constructor; [cbn; intros [E|[]]; discriminate E|constructor; [intros []|constructor]]|]. vm_compute. reflexivity.
 Qed.
